@@ -51,15 +51,32 @@ type Opt struct {
 	TagRoot   []string
 	TagLeaf   []string
 	CallTree  bool
+	// IndexBy says how the sample type is named on the command line: "" = by its name, "number" =
+	// by its position, "default" = not at all (the profile's default_sample_type, else the last type)
+	IndexBy string
 }
 
 func (o Opt) String() string {
-	return fmt.Sprintf("gran=%s noinlines=%v columns=%v index=%d mean=%v tagroot=%v tagleaf=%v call_tree=%v", o.Gran, o.NoInlines, o.Columns, o.Index, o.Mean, o.TagRoot, o.TagLeaf, o.CallTree)
+	return fmt.Sprintf("gran=%s noinlines=%v columns=%v index=%d mean=%v tagroot=%v tagleaf=%v call_tree=%v", o.Gran, o.NoInlines, o.Columns, o.Index, o.Mean, o.TagRoot, o.TagLeaf, o.CallTree) + map[string]string{"": "", "number": " sample_index given by position", "default": " sample_index not given"}[o.IndexBy]
 }
 
 // RandOpt draws an option point.
 func RandOpt(r *rand.Rand, p *profile.Profile) Opt {
 	o := Opt{Gran: []string{"functions", "filefunctions", "files", "lines", "addresses"}[r.Intn(5)], NoInlines: r.Intn(3) == 0, Columns: r.Intn(3) == 0, Index: r.Intn(len(p.SampleType)), Mean: r.Intn(4) == 0}
+	switch r.Intn(6) {
+	case 0:
+		// no -sample_index: the profile says which type is shown (any position, the first included),
+		// or says nothing and the last one is
+		o.IndexBy = "default"
+		if r.Intn(3) > 0 {
+			p.DefaultSampleType = p.SampleType[o.Index].Type
+		} else {
+			p.DefaultSampleType = ""
+			o.Index = len(p.SampleType) - 1
+		}
+	case 1:
+		o.IndexBy = "number"
+	}
 	keys := []string{"k1", "k2", "tag", "n", "request", "nosuchkey"}
 	if r.Intn(4) == 0 {
 		o.TagRoot = append(o.TagRoot, keys[r.Intn(len(keys))])
@@ -77,6 +94,12 @@ func RandOpt(r *rand.Rand, p *profile.Profile) Opt {
 func (o Opt) Flags(p *profile.Profile) (map[string]bool, map[string]string) {
 	b := map[string]bool{o.Gran: true, "noinlines": o.NoInlines, "showcolumns": o.Columns, "mean": o.Mean, "trim": false, "call_tree": o.CallTree}
 	s := map[string]string{"sample_index": p.SampleType[o.Index].Type}
+	switch o.IndexBy {
+	case "number":
+		s["sample_index"] = fmt.Sprint(o.Index)
+	case "default":
+		s["sample_index"] = ""
+	}
 	if len(o.TagRoot) > 0 {
 		s["tagroot"] = strings.Join(o.TagRoot, ",")
 	}
@@ -632,7 +655,7 @@ func run(c *harness.Ctx) harness.Result {
 		if msg == "" && web != nil {
 			msg = CheckWebTop(c, web, p, o)
 		}
-		if msg == "" && k == 0 && c.Index%2 == 0 && len(o.TagRoot)+len(o.TagLeaf) == 0 && !o.Mean && o.Gran != "addresses" && distinctBinaries(p) { // (the mean divisor is the first column of whichever source is listed first)
+		if msg == "" && k == 0 && c.Index%2 == 0 && o.IndexBy == "" && len(o.TagRoot)+len(o.TagLeaf) == 0 && !o.Mean && o.Gran != "addresses" && distinctBinaries(p) { // (the mean divisor is the first column of whichever source is listed first)
 			// the same samples arriving as two sources
 			whole := p
 			if r.Intn(2) == 0 {
